@@ -45,9 +45,11 @@ def words(rng, n, alpha=LETTERS + DIGITS):
     return " ".join(text(rng, alpha, 1, 8) for _ in range(n))
 
 
-def safe_cell_text(rng, convert=True):
+def safe_cell_text(rng, convert=True, long_p=0.0):
     """text that the conversion pipeline must leave alone"""
     alpha = SAFE if convert else ASCII_NOMETA
+    if long_p and rng.random() < long_p:
+        return " ".join(text(rng, alpha.replace(" ", ""), 1, 9) for _ in range(rng.randint(8, 40)))
     r = rng.random()
     if r < 0.1:
         return ""
@@ -61,7 +63,7 @@ def safe_cell_text(rng, convert=True):
     return t
 
 
-def gen_column(rng, n, dtype=None, convert=True, nullable=None):
+def gen_column(rng, n, dtype=None, convert=True, nullable=None, long_p=0.0):
     dtype = dtype or rng.choice(["str", "str", "int", "float"])
     nullable = rng.random() < 0.3 if nullable is None else nullable
     vals = []
@@ -69,7 +71,7 @@ def gen_column(rng, n, dtype=None, convert=True, nullable=None):
         if nullable and rng.random() < 0.25:
             vals.append(None)
         elif dtype == "str":
-            vals.append(safe_cell_text(rng, convert))
+            vals.append(safe_cell_text(rng, convert, long_p))
         elif dtype == "int":
             vals.append(rng.choice([0, 1, -1, rng.randint(-10**6, 10**6), rng.randint(0, 99)]))
         else:
@@ -115,7 +117,7 @@ def gen_group_keys(rng, n, levels, prefix="G", maxruns=4, reuse_inner=True):
 
 
 def gen_df(rng, n, ncols, *, convert=True, group_cols=0, subline_cols=0, groupby_cols=0,
-           row_base=0, maxruns=4, key=True, groupby_nulls=False):
+           row_base=0, maxruns=4, key=True, groupby_nulls=False, long_p=0.0):
     """-> (dfspec, meta).  Grouping columns are placed at random positions; one
     designated key column holds the d<row>c<col> tags."""
     total = ncols
@@ -170,7 +172,7 @@ def gen_df(rng, n, ncols, *, convert=True, group_cols=0, subline_cols=0, groupby
             cols.append({"name": name, "dtype": "str",
                          "values": [f"d{row_base + r}c{j}" for r in range(n)]})
         else:
-            dt, vals = gen_column(rng, n, convert=convert)
+            dt, vals = gen_column(rng, n, convert=convert, long_p=long_p)
             cols.append({"name": name, "dtype": dt, "values": vals})
     meta = {"key": keypos, "page_by": [f"N{j}" for j in pg], "subline_by": [f"N{j}" for j in sb],
             "group_by": [f"N{j}" for j in gb], "row_base": row_base, "nrows": n}
@@ -357,7 +359,7 @@ def gen_table_spec(rng, *, nrows=(0, 30), ncols=(1, 6), strategy=None, header=No
                    convert=True, attrs_p=0.2, rich=0.3, half_points=False, group_by=None,
                    footnote=None, source=None, title=None, subline=None, page_hf=None,
                    page=None, col_rel_width=None, color_pool=None, attr_names=None,
-                   maxruns=4, row_base=0, hdr_base=0, as_colheader_false=0.0, page_kw=None):
+                   maxruns=4, row_base=0, hdr_base=0, as_colheader_false=0.0, page_kw=None, long_p=0.0):
     """General single-table document.  strategy in
     plain | page_by | page_by_new | page_by_new_first | subline | subline_page_by | nested"""
     n = rng.randint(*nrows) if isinstance(nrows, tuple) else nrows
@@ -382,7 +384,7 @@ def gen_table_spec(rng, *, nrows=(0, 30), ncols=(1, 6), strategy=None, header=No
     need = pg + sb + gb + 1
     nc = max(nc, need + (1 if rng.random() < 0.7 else 0))
     df, meta = gen_df(rng, n, nc, convert=convert, group_cols=pg, subline_cols=sb, groupby_cols=gb,
-                      row_base=row_base, maxruns=maxruns)
+                      row_base=row_base, maxruns=maxruns, long_p=long_p)
     nc = len(df["cols"])
     if pg:
         body["page_by"] = meta["page_by"]
@@ -441,7 +443,7 @@ def gen_table_spec(rng, *, nrows=(0, 30), ncols=(1, 6), strategy=None, header=No
 
 def gen_multi_spec(rng, *, nsec=(2, 4), nrows=(1, 12), ncols=(1, 5), convert=True, attrs_p=0.15,
                    rich=0.3, half_points=False, color_pool=None, same_cols=None, nrow=None,
-                   header_mode=None):
+                   header_mode=None, long_p=0.0):
     k = rng.randint(*nsec)
     sections = []
     base = 0
@@ -450,10 +452,12 @@ def gen_multi_spec(rng, *, nsec=(2, 4), nrows=(1, 12), ncols=(1, 5), convert=Tru
     for s in range(k):
         n = rng.randint(*nrows)
         nc = nc0 if same else rng.randint(*ncols)
-        df, meta = gen_df(rng, n, nc, convert=convert, row_base=base)
+        df, meta = gen_df(rng, n, nc, convert=convert, row_base=base, long_p=long_p)
         nc = len(df["cols"])
         base += n
         body: dict = {}
+        if not convert:
+            body["text_convert"] = False
         if rng.random() < 0.4:
             body["col_rel_width"] = [rng.choice([1, 2, 0.5, round(rng.uniform(0.2, 10), 2)]) for _ in range(nc)]
         body.update(gen_body_attrs(rng, n, nc, p=attrs_p, half_points=half_points, color_pool=color_pool))
